@@ -158,6 +158,9 @@ func optFieldType(o *OptNode) reflect.Type {
 	case "ptr":
 		return reflect.PtrTo(et)
 	case "func0":
+		if o.ErrPtr {
+			return reflect.FuncOf(nil, []reflect.Type{reflect.TypeOf((*flags.Error)(nil))}, false)
+		}
 		if o.ErrFunc || o.FailOn != nil {
 			return reflect.FuncOf(nil, []reflect.Type{errType}, false)
 		}
@@ -199,7 +202,7 @@ func optTag(o *OptNode) string {
 	for _, v := range o.OptVals {
 		t = append(t, tagKV("optional-value", v))
 	}
-	if o.Required {
+	if o.Required && !o.ReqField {
 		t = append(t, tagKV("required", "true"))
 	}
 	for _, v := range o.Defaults {
@@ -521,6 +524,9 @@ func (b *Built) preset(o *OptNode, f reflect.Value) {
 					fail = atomText(in[0]) == *failOn
 				}
 			}
+			if ft.NumOut() == 1 && ft.Out(0) != errType {
+				return []reflect.Value{reflect.Zero(ft.Out(0))} // a nil *flags.Error: not a result of type error, so the library ignores it
+			}
 			if ft.NumOut() == 1 {
 				if fail {
 					return []reflect.Value{reflect.ValueOf(&errCallback).Elem()}
@@ -555,6 +561,7 @@ func (b *Built) AttachLate() {
 		}
 	}
 	b.late = nil
+	b.applyFieldMarks()
 }
 
 // Build realises the tree.  Setup errors are recorded in b.err.
@@ -631,7 +638,26 @@ func buildWith(t *Tree, popts flags.Options, presets bool, deferLate bool) (b *B
 	if err := b.addProgCmds(p.Command, root); err != nil {
 		b.err = err
 	}
+	b.applyFieldMarks()
 	return b
+}
+
+// applyFieldMarks sets what a declaration says through public fields rather than tags (Option.Required).
+func (b *Built) applyFieldMarks() {
+	if b.p == nil {
+		return
+	}
+	byField := map[string]*OptNode{}
+	for _, o := range b.opts {
+		if o != nil {
+			byField[o.field] = o
+		}
+	}
+	eachOption(b.p.Command, func(fo *flags.Option) {
+		if o := byField[fo.Field().Name]; o != nil && o.ReqField && o.Required {
+			fo.Required = true
+		}
+	})
 }
 
 // addProgCmds adds the programmatic sub-commands of c (tag-declared ones
